@@ -147,7 +147,11 @@ func (e *Engine) step(st *State, fr *Frame, in ssa.Instruction, onReturn func(*S
 		}
 		fr.regs[x] = v
 	case *ssa.ChangeInterface:
-		fr.regs[x] = e.val(st, fr, x.X)
+		v := e.val(st, fr, x.X)
+		if ev, ok := v.(VErr); ok && !isErrorType(x.Type()) {
+			v = VIface{Tag: Ite(Eq(ev.Id, Zero), Zero, Num(int64(e.typeTag(x.X.Type())))), Data: ev.Id, T: x.Type()}
+		}
+		fr.regs[x] = v
 	case *ssa.MakeInterface:
 		fr.regs[x] = e.makeInterface(st, fr, x)
 	case *ssa.Extract:
